@@ -611,6 +611,14 @@ M('C08', 'rsa-parse-locals-swapped', FL, '    def parse(self, packet):\n        
   '    def parse(self, packet):\n        e = MPI(packet)\n        n = MPI(packet)\n        self.n, self.e = n, e\n\n\nclass DSAPub', 'C08.c')
 M('C08', 'hashed-area-peek-short', FL, '        hashed_raw = packet[:2 + hl]\n',
   '        hashed_raw = packet[:1 + hl]\n', 'C08.a')
+M('C08', 'hashed-area-peek-transformed', FL, '        self._hashed_raw = hashed_raw\n',
+  '        self._hashed_raw = hashed_raw[2:]\n', 'C08.a')
+M('C08', 'notation-offset-reads-overlap', SS, '        self.flags = packet[:1]\n        del packet[:4]\n        nlen = self.bytes_to_int(packet[:2])\n        del packet[:2]\n        vlen = self.bytes_to_int(packet[:2])\n        del packet[:2]\n',
+  '        self.flags = packet[:1]\n        nlen = self.bytes_to_int(packet[4:6])\n        vlen = self.bytes_to_int(packet[5:7])\n        del packet[:8]\n', 'C08.a')
+M('C08', 'notation-offset-reads-del-short', SS, '        self.flags = packet[:1]\n        del packet[:4]\n        nlen = self.bytes_to_int(packet[:2])\n        del packet[:2]\n        vlen = self.bytes_to_int(packet[:2])\n        del packet[:2]\n',
+  '        self.flags = packet[:1]\n        nlen = self.bytes_to_int(packet[4:6])\n        vlen = self.bytes_to_int(packet[6:8])\n        del packet[:7]\n', 'C08.a')
+M('C08', 'dispatch-factory-gets-root-class', TY, '    def __call__(cls, packet=None):  # NOQA\n        def _makeobj(cls):\n            obj = object.__new__(cls)\n            obj.__init__()\n            return obj\n\n',
+  '    @staticmethod\n    def _makeobj(cls):\n        obj = object.__new__(cls)\n        obj.__init__()\n        return obj\n\n    def __call__(cls, packet=None):  # NOQA\n', 'C08.g', more=[(TY, '            obj = _makeobj(ncls)\n', '            obj = MetaDispatchable._makeobj(rcls)\n'), (TY, '            obj = _makeobj(cls)\n', '            obj = MetaDispatchable._makeobj(cls)\n')])
 M('C08', 'uid-writer-codec-swapped', PK, "textenc = 'utf-8' if not self._encoding_fallback else 'charmap'",
   "textenc = 'utf-8' if self._encoding_fallback else 'charmap'", 'C08.f')
 M('C08', 'uid-writer-ignores-fallback', PK, "textenc = 'utf-8' if not self._encoding_fallback else 'charmap'",
@@ -731,6 +739,13 @@ T('C08', 'twin-pkesk-pkalg-get', PK, '        ct = _c.get(self._pkalg, None)\n  
   '        ctcls = _c.get(self._pkalg)\n        if ctcls is None:\n            self.ct = None\n\n        else:\n            self.ct = ctcls()\n', more=[(PK, "        _bytes += self.ct.__bytearray__() if self.ct is not None else b'\\x00' * (self.header.length - 10)\n", "        if self.ct is not None:\n            _bytes += self.ct.__bytearray__()\n\n        else:\n            _bytes += b'\\x00' * (self.header.length - 10)\n")])
 T('C08', 'twin-hashed-area-peek-spelling', FL, '        hl = self.bytes_to_int(packet[:2])\n        hashed_raw = packet[:2 + hl]\n        del packet[:2]\n',
   '        count_octets = packet[:2]\n        hl = self.bytes_to_int(count_octets)\n        area_end = hl + 2\n        hashed_raw = packet[:area_end]\n        del packet[:2]\n')
+T('C08', 'twin-notation-offset-reads', SS, '        self.flags = packet[:1]\n        del packet[:4]\n        nlen = self.bytes_to_int(packet[:2])\n        del packet[:2]\n        vlen = self.bytes_to_int(packet[:2])\n        del packet[:2]\n',
+  '        self.flags = packet[:1]\n        nlen = self.bytes_to_int(packet[4:6])\n        vlen = self.bytes_to_int(packet[6:8])\n        del packet[:8]\n')
+T('C08', 'twin-hashed-area-count-from-bytes', FL, '        hl = self.bytes_to_int(packet[:2])\n        hashed_raw = packet[:2 + hl]\n        del packet[:2]\n',
+  "        hl = int.from_bytes(packet[:2], 'big')\n        hashed_raw = packet[:2 + hl]\n        del packet[:2]\n")
+T('C08', 'twin-dispatch-factory-staticmethod', TY, '    def __call__(cls, packet=None):  # NOQA\n        def _makeobj(cls):\n            obj = object.__new__(cls)\n            obj.__init__()\n            return obj\n\n',
+  '    @staticmethod\n    def _makeobj(cls):\n        obj = object.__new__(cls)\n        obj.__init__()\n        return obj\n\n    def __call__(cls, packet=None):  # NOQA\n', more=[(TY, '            obj = _makeobj(ncls)\n', '            obj = MetaDispatchable._makeobj(ncls)\n'), (TY, '            obj = _makeobj(cls)\n', '            obj = MetaDispatchable._makeobj(cls)\n')])
+# --- end C08 hardening
 M('C09', 'old-tag-shift', PT, "        tag |= (self.tag) if self._lenfmt else ((self.tag << 2) | {1: 0, 2: 1, 4: 2, 0: 3}[self.llen])", "        tag |= (self.tag) if self._lenfmt else ((self.tag << 1) | {1: 0, 2: 1, 4: 2, 0: 3}[self.llen])", 'C09.8')
 M('C09', 'tag-mask-1f', PT, "        _tag = (val & 0x3F) if self._lenfmt else ((val & 0x3C) >> 2)", "        _tag = (val & 0x1F) if self._lenfmt else ((val & 0x3C) >> 2)", 'C09.8')
 M('C09', 'partial-del-one', TY, "                    del b[total:total + size]", "                    del b[total:total + 1]", 'C09.8')
